@@ -534,7 +534,10 @@ class H:
             else:
                 mod_add_teardown_callback(f)
         elif route == "res":
-            ctx.add_resource(Res(spec["id"]), "r_" + spec["id"], teardown_callback=f)
+            if spec.get("multi"):
+                ctx.add_resource(Res(spec["id"]), "r_" + spec["id"], [Res, Res2], teardown_callback=f)
+            else:
+                ctx.add_resource(Res(spec["id"]), "r_" + spec["id"], teardown_callback=f)
         elif route == "modres":
             mod_add_resource(Res(spec["id"]), "r_" + spec["id"], teardown_callback=f)
         else:
@@ -559,18 +562,30 @@ class H:
 
         if route == "tdf":
 
-            @context_teardown
-            async def genf():  # type: ignore[no-untyped-def]
-                await h.pre_steps(spec, cid)
-                exc = yield
-                h._cb_start(spec, cid, (exc,))
-                try:
-                    await h.cb_steps(spec, cid)
-                except BaseException as e:
-                    sim.log("cb_end", cb=spec["id"], ctx=cid, how="cancel" if is_cancel(e) else "raise", exc=describe(e))
-                    raise
-                else:
-                    sim.log("cb_end", cb=spec["id"], ctx=cid, how="return", exc=None)
+            if spec.get("inner_ctx"):
+                # the generator keeps a sub-context of its own open across the yield; the
+                # teardown hook still belongs to the context that was current at the call
+                @context_teardown
+                async def genf():  # type: ignore[no-untyped-def]
+                    async with Context():
+                        exc = yield
+                        h._cb_start(spec, cid, (exc,))
+                        sim.log("cb_end", cb=spec["id"], ctx=cid, how="return", exc=None)
+
+            else:
+
+                @context_teardown
+                async def genf():  # type: ignore[no-untyped-def]
+                    await h.pre_steps(spec, cid)
+                    exc = yield
+                    h._cb_start(spec, cid, (exc,))
+                    try:
+                        await h.cb_steps(spec, cid)
+                    except BaseException as e:
+                        sim.log("cb_end", cb=spec["id"], ctx=cid, how="cancel" if is_cancel(e) else "raise", exc=describe(e))
+                        raise
+                    else:
+                        sim.log("cb_end", cb=spec["id"], ctx=cid, how="return", exc=None)
 
             await genf()
         else:
@@ -1057,6 +1072,8 @@ class G:
             kind = pick(rng, {"sync": 3, "async": 4, "sync_aw": 1.2, "aw_obj": 0.5})
             spec["pexc"] = route in ("ctx", "mod") and rng.random() < 0.45
         spec["kind"] = kind
+        if route == "res" and rng.random() < 0.4:
+            spec["multi"] = True
         body: list = []
         is_async = kind != "sync"
         n = rng.randint(0, 3)
@@ -1120,6 +1137,11 @@ class G:
                             bb.append(["child", ch])
                     brs.append({"name": f"t{self.ntask}", "body": bb})
                 body.append(["par", brs])
+        if self.prop == "C01" and rng.random() < 0.06:
+            # must be the last thing this task does in the block: the generator's inner
+            # context stays current in the calling task until the hook has run
+            self.ncb += 1
+            body.append(["reg", {"id": f"c{self.ncb}", "route": "tdf", "kind": "async", "pexc": True, "pre": [], "body": [], "inner_ctx": True}])
         b["body"] = body
         r = rng.random()
         if r < 0.55:
